@@ -281,6 +281,44 @@ func genIntegration(r *hx.RNG) []string {
 	return in
 }
 
+// genKeepAlive: several responses on one keep-alive connection: matching (shape a
+// or b) and non-matching URLs, with and without Range, bodies that end before
+// and after the configured action offsets.
+func genKeepAlive(r *hx.RNG) []string {
+	span := []int{60, 400, 3000, 9000}[r.Intn(4)]
+	cfg := genCfg(r, span, r.Range(1, 2), false)
+	if r.Chance(1, 2) {
+		// make sure something is still armed after a short first response
+		cfg = append(cfg, fmt.Sprintf("C:%d:%d", span/2+r.Intn(span/2), r.Range(1, 2)), fmt.Sprintf("H:%d:2:%d", span/3+r.Intn(span/3), r.Range(1, 2)))
+	}
+	in := append([]string{"K"}, cfg...)
+	in = append(in, "|")
+	nreq := r.Range(2, 5)
+	for k := 0; k < nreq; k++ {
+		var url string
+		switch x := r.Intn(10); {
+		case x < 4:
+			url = fmt.Sprintf("http://example/a%d", r.Intn(100))
+		case x < 6:
+			url = fmt.Sprintf("http://example/b%d", r.Intn(100))
+		default:
+			url = fmt.Sprintf("http://other/zzz%d", r.Intn(100))
+		}
+		var ln int
+		if r.Chance(1, 2) {
+			ln = 1 + r.Intn(span/2+1) // ends before most actions
+		} else {
+			ln = span/2 + r.Intn(span+span/2)
+		}
+		rs := -1
+		if r.Chance(1, 3) {
+			rs = r.Intn(ln)
+		}
+		in = append(in, fmt.Sprintf("q:%s:%d:%d:%d", hx.HexS(url), rs, ln, r.Intn(1000000)))
+	}
+	return in
+}
+
 func genRate(r *hx.RNG) []string {
 	bw := r.Range(200, 3000)
 	k := 3 // the bytes need 2 drains: at least one full drain interval
@@ -333,6 +371,14 @@ func generate(cfg *hx.Config, emit func(kind string, in []string)) {
 	// 3. proxy on a shaped listener
 	for k := 0; k < ni; k++ {
 		emit("int", genIntegration(rng.Fork()))
+	}
+	// 3b. keep-alive connections with several responses
+	nk := 60
+	if cfg.Thorough() {
+		nk = 800
+	}
+	for k := 0; k < nk; k++ {
+		emit("ka", genKeepAlive(rng.Fork()))
 	}
 	// 4. cases that wait for bucket drains (1 s ticker): run 4 at a time
 	var slow [][]string
